@@ -454,6 +454,9 @@ func Gen(r *rand.Rand, nFeeds, nTrips, nStops int) Case {
 	}
 	var c Case
 	now := 0
+	if r.Intn(3) == 0 { // a replay that starts long after the trips did (feeds created after the end of the narrower windows)
+		now = 20000
+	}
 	for n := 1; n <= nFeeds; n++ {
 		if n == 1 || r.Intn(5) != 0 { // every fifth feed or so repeats the header timestamp of the feed before it
 			now += 10
